@@ -77,7 +77,8 @@ def draw_system(rng, seed: int, prop: str, *, families=("single",) * 6 + ("cross
         descs["N2"] = space.new_for(rng, d2, "disjoint")
         if rng.random() < 0.3:
             descs["W0"] = {"kind": "weights", "of": "D0", "seed": rng.randrange(10 ** 6),
-                           "name_kind": rng.choice(["var", "var", "coord", "none"])}
+                           "name_kind": rng.choice(["var", "var", "coord", "none"]),
+                           "dim_order": rng.choice([None, None, "rev"])}
         fits["F0"] = {"X": "D0", "w": "W0" if "W0" in descs else None}
         fits["F1"] = {"X": "D1", "w": None}
         fits["F2"] = {"X": "D2", "w": None}
@@ -105,6 +106,7 @@ def draw_system(rng, seed: int, prop: str, *, families=("single",) * 6 + ("cross
             params["use_coslat"] = False
         if any(descs[k].get("nan_features") or descs[k].get("nan_samples") for k in ("D0", "D1", "D2")):
             params["check_nans"] = True
+        _unseen_variants(rng, descs, params, "D0", "N0", "N1")
         if spec.name == "ExtendedEOF":
             F = max(gen.n_features_total(descs[k]) for k in ("D0", "D1", "D2"))
             if (params.get("n_pca_modes") or F) * params["embedding"] > 12:
@@ -144,7 +146,8 @@ def draw_system(rng, seed: int, prop: str, *, families=("single",) * 6 + ("cross
         fits["F0"] = {"X": "X0", "Y": "Y0"}
         if rng.random() < 0.25:
             descs["WX0"] = {"kind": "weights", "of": "X0", "seed": rng.randrange(10 ** 6),
-                            "name_kind": rng.choice(["var", "coord", "none"])}
+                            "name_kind": rng.choice(["var", "coord", "none"]),
+                            "dim_order": rng.choice([None, None, "rev"])}
             fits["F0"]["w"] = "WX0"
             if rng.random() < 0.5:
                 descs["WY0"] = {"kind": "weights", "of": "Y0", "seed": rng.randrange(10 ** 6),
@@ -161,6 +164,7 @@ def draw_system(rng, seed: int, prop: str, *, families=("single",) * 6 + ("cross
                                 bool(params["use_coslat"][1]) and all(models._has_lat(descs[k]) for k in ("Y0", "Y1", "Y2"))]
         if any(descs[k].get("nan_features") or descs[k].get("nan_samples") for k in descs):
             params["check_nans"] = True
+        _unseen_variants(rng, descs, params, "X0", "NX0", "NX0")
     else:
         lay.update(containers=("da",), allow_nan=False, allow_mi=False, max_features=6)
         a = space.draw_layout(rng, **lay)
@@ -227,6 +231,16 @@ def draw_system(rng, seed: int, prop: str, *, families=("single",) * 6 + ("cross
     return spec, cfg
 
 
+def _unseen_variants(rng, descs, params, fitted, n_nan, n_vars):
+    """Unseen data that differs from the fitted data in ways transform() has to cope with."""
+    r1, r2 = rng.random(), rng.random()
+    if params.get("check_nans") and r1 < 0.3 and gen.n_samples_total(descs[n_nan]) >= 3:
+        descs[n_nan]["nan_sample_new"] = 1        # an entirely missing sample (dropped by transform)
+    d = descs[fitted]
+    if d.get("container") == "ds" and len(d["fields"]) >= 2 and r2 < 0.4:
+        descs[n_vars]["var_order"] = "rev"        # the same variables assembled in another order
+
+
 def simplifications(cfg: dict):
     """Candidate simpler configurations for C13/C14 replays (kept only if they fail the same way)."""
     def variant(mut):
@@ -236,7 +250,8 @@ def simplifications(cfg: dict):
     sc = cfg.get("sched") or {}
     if sc.get("reexec") or sc.get("transient") or sc.get("stall") or sc.get("W", 1) != 1:
         yield variant(lambda c: c["sched"].update(reexec=0.0, transient=0.0, stall=0.0, W=1))
-    for key in ("attrs", "coord_attrs", "ds_attrs", "extra_coord", "perm_seed", "nan_features", "nan_samples"):
+    for key in ("attrs", "coord_attrs", "ds_attrs", "extra_coord", "perm_seed", "nan_features", "nan_samples",
+                "nan_sample_new", "var_order", "dim_order"):
         if any(key in d and d[key] for d in cfg["descs"].values()):
             yield variant(lambda c, key=key: [d.pop(key, None) for d in c["descs"].values()])
     if any(f.get("w") or f.get("wY") for f in cfg.get("fits", {}).values()):
